@@ -2247,6 +2247,7 @@ package goatlang
 //@   panics_iff true
 //@ func (*token).Char
 //@   property C13
+//@   pure
 //@   requires t != nil && len(t.Text) >= 2
 //@   ensures result == fst(strconv.UnquoteChar(t.Text[1:len(t.Text)-1], '\''))
 //@ func (Value).convert case TypeString
@@ -3126,6 +3127,16 @@ package goatlang
 //@   axioms TOKARR
 //@   requires wfC(c) && tok != nil && len(tok.Tokens) >= 3 && tokArr(arr(tok.Tokens)) && (forall j int :: 0 <= j && j < len(tok.Tokens) ==> tok.Tokens[j] != nil)
 //@   callsite#builtinwins (*compiler).compile: builtinMap[tok.Tokens[0].Text] == 0
+//@ -- integer and character literals are untyped constants: PUSH of the literal's value (a typed
+//@ -- constant would stop taking the type of the other operand)
+//@ func (*compiler).compile case "(char)"
+//@   property C13 C04
+//@   requires wfC(c) && tok != nil && len(tok.Text) >= 2
+//@   ensures#push len(res) == 1 && res[0].Code == codePush && res[0].A == reg(tok.Char())
+//@ func (*compiler).compile case "(int)"
+//@   property C04
+//@   requires wfC(c) && tok != nil
+//@   ensures#push len(res) == 1 && res[0].Code == codePush && calls("(*token).Int") == 1
 //@ -- the instruction a selector compiles to is left unstamped by the case: the stamping loop of
 //@ -- compile gives it the position of the "." node, the one the fused forms report as well
 //@ func (*compiler).compile case "."
